@@ -438,9 +438,19 @@ C01OddCauses(n, r) ==
   ELSE IF \E i \in DOMAIN Evs(n) : Evs(n)[i].e.ev = "idp" /\ Evs(n)[i].e.answer = "odd" /\ ~Evs(n)[i].e.shaped
        THEN {"ok-after-an-answer-that-is-not-a-token-response"} ELSE {}
 
+\* C11 for a check whose refresh exchange was answered with something that is not a token response at all (status 200 with
+\* null, {}, an error document, ...): the refresh has failed - the request is not let through on its strength and the stale
+\* session is removed, as after any other failed refresh.
+C11OddCauses(n, r) ==
+  IF Shaped(n) \/ ~\E i \in DOMAIN Evs(n) : Evs(n)[i].e.ev = "idp" /\ Evs(n)[i].e.grant = "refresh_token" /\ Evs(n)[i].e.answer = "odd" /\ ~Evs(n)[i].e.shaped
+  THEN {}
+  ELSE (IF Outcome(r) = "ok" THEN {"ok-after-failed-refresh"} ELSE {})
+       \cup (IF Len(Ops(n, "RemoveSession")) = 0 /\ ~StoreFaulted(n) /\ Outcome(r) \notin {"panic", "grpcError", "nilResponse"}
+             THEN {"stale-session-not-removed"} ELSE {})
+
 RespViol(n, r) ==
   IF Opaque(n) THEN Tag("C14", "NoLeak", C14RespCauses(n, r), n) \cup Tag("C15", "NoCrash", C15RespCauses(n, r), n)
-                    \cup (IF OddBody(n) THEN Tag("C01", "OkJustified", C01OddCauses(n, r), n) ELSE {}) ELSE
+                    \cup (IF OddBody(n) THEN Tag("C01", "OkJustified", C01OddCauses(n, r), n) \cup Tag("C11", "RefreshMerge", C11OddCauses(n, r), n) ELSE {}) ELSE
        Tag("C01", "OkJustified", C01Causes(n, r), n)
   \cup Tag("C01", "OkJustified", {"ok-for-a-session-beyond-its-timeouts:" \o c : c \in C10RespCauses(n, r)}, n)
   \cup Tag("C03", "NoRelogin", C03RespCauses(n, r), n)
